@@ -62,4 +62,318 @@ theorem runtimeBranch_total {w : World} {bp : Nat} {tx : Tx} {snd rcv : Copy} {f
         simp only []
         omega
 
+
+/-- the same when the VM may have left a different world: either the result says so (`leak`), or the
+branch ended in a rejection (world of before the tx) -/
+theorem runtimeBranch_total' {w0 w : World} {bp : Nat} {tx : Tx} {snd rcv : Copy} {fee : Nat} {leak dirty : Bool}
+    (hw : leak = false → w = w0)
+    (hso : snd.old = w0.acct snd.id) (hro : rcv.old = w0.acct rcv.id)
+    (hl : (runtimeBranch w0 w bp tx snd rcv fee leak dirty).leak = false) :
+    (runtimeBranch w0 w bp tx snd rcv fee leak dirty).w.total + (runtimeBranch w0 w bp tx snd rcv fee leak dirty).bp
+      = w0.total + bp := by
+  cases leak
+  · have := hw rfl
+    subst this
+    exact runtimeBranch_total hso hro
+  · unfold runtimeBranch at hl ⊢
+    simp only [] at hl ⊢
+    split
+    · split
+      · rfl
+      · rename_i a ha
+        rw [if_pos (by assumption)] at hl
+        simp [ha] at hl
+    · split
+      · rfl
+      · rename_i a ha
+        split
+        · rfl
+        · rename_i b hb
+          rw [if_neg (by assumption)] at hl
+          simp [ha, hb] at hl
+
+theorem subBalance_facts (cp : Copy) (x : Nat) :
+    (cp.subBalance x).id = cp.id ∧ (cp.subBalance x).old = cp.old ∧
+    (cp.subBalance x).cur.nonce = cp.cur.nonce ∧ (cp.subBalance x).cur.code = cp.cur.code ∧
+    (x ≤ cp.cur.bal → (cp.subBalance x).cur.bal = cp.cur.bal - x) := by
+  simp [Copy.subBalance, Copy.setBal, absSub]
+  intro h hlt; omega
+
+/-- `finishVm` conserves Σ + BpReward for two different accounts, given what validation guarantees
+about the base fee. -/
+theorem finishVm_total {c : Ctx} {w : World} {bp : Nat} {tx : Tx} {snd rcv : Copy} {isFD : Bool} {st : Status}
+    (hsc : snd.cur = w.acct snd.id) (hso : snd.old = w.acct snd.id)
+    (hrc : rcv.cur = w.acct rcv.id) (hro : rcv.old = w.acct rcv.id)
+    (hne : snd.id ≠ rcv.id)
+    (hcov : isFD = false → tx.amount ≤ snd.cur.bal → txBaseFee c tx.payloadLen ≤ snd.cur.bal - tx.amount)
+    (hcovFD : isFD = true → txBaseFee c tx.payloadLen ≤ rcv.cur.bal)
+    (hl : (finishVm w bp tx st isFD (execute c w tx snd rcv isFD)).leak = false) :
+    (finishVm w bp tx st isFD (execute c w tx snd rcv isFD)).w.total +
+      (finishVm w bp tx st isFD (execute c w tx snd rcv isFD)).bp = w.total + bp := by
+  generalize ho : execute c w tx snd rcv isFD = o at hl ⊢
+  obtain ⟨ok, cov⟩ := execute_spec ho
+  have hsb : snd.cur.bal = w.bal snd.id := by rw [hsc]; rfl
+  have hrb : rcv.cur.bal = w.bal rcv.id := by rw [hrc]; rfl
+  unfold finishVm at hl ⊢
+  simp only [] at hl ⊢
+  split
+  · rfl
+  · -- runtime error
+    rename_i herr
+    rw [herr] at hl
+    simp only [] at hl
+    refine runtimeBranch_total' (ok.runtime herr) ?_ ?_ hl
+    · cases isFD <;> simp [ok.sid, ok.sold, hso, (subBalance_facts _ _).1, (subBalance_facts _ _).2.1]
+    · cases isFD <;> simp [ok.rid, ok.rold, hro, (subBalance_facts _ _).1, (subBalance_facts _ _).2.1]
+  · -- success
+    rename_i herr
+    have hsum := ok.sum herr
+    have hcv := cov herr
+    have a1 : o.w.bal snd.id = w.bal snd.id := by simp [World.bal, ok.asid]
+    have a2 : o.w.bal rcv.id = w.bal rcv.id := by simp [World.bal, ok.arid]
+    -- the fee is covered by the payer's record
+    have hfee : o.fee ≤ (if isFD then o.rcv else o.snd).cur.bal := by
+      rcases hcv with h | ⟨h1, h2, h3⟩
+      · exact h
+      · have q := sendBal_spec h3
+        have q17 := q.2.2.2.2.2.2.2.2.2.2.2.2.2.2.2.2 hne
+        cases isFD
+        · have := hcov rfl q17.1
+          simp; omega
+        · have := hcovFD rfl
+          simp; omega
+    cases isFD
+    · simp only [Bool.false_eq_true, if_false] at hfee ⊢
+      have sf := subBalance_facts o.snd o.fee
+      have hne' : (o.snd.subBalance o.fee).id ≠ o.rcv.id := by rw [sf.1, ok.sid, ok.rid]; exact hne
+      rw [(successBranch_w _ _ _ _ _ _ _).1, (successBranch_w _ _ _ _ _ _ _).2.1, if_pos hne']
+      rw [sf.1, ok.sid, ok.rid] at hne' ⊢
+      have h2 := put2_total o.w ((o.snd.subBalance o.fee).cur.setNonce tx.nonce) o.rcv.cur hne'
+      have := sf.2.2.2.2 hfee
+      simp at h2
+      omega
+    · simp only [if_true] at hfee ⊢
+      have sf := subBalance_facts o.rcv o.fee
+      have hne' : o.snd.id ≠ (o.rcv.subBalance o.fee).id := by rw [sf.1, ok.sid, ok.rid]; exact hne
+      rw [(successBranch_w _ _ _ _ _ _ _).1, (successBranch_w _ _ _ _ _ _ _).2.1, if_pos hne']
+      rw [sf.1, ok.sid, ok.rid] at hne' ⊢
+      have h2 := put2_total o.w (o.snd.cur.setNonce tx.nonce) (o.rcv.subBalance o.fee).cur hne'
+      have := sf.2.2.2.2 hfee
+      simp at h2
+      omega
+
+
+/-- a transaction whose receiver is the sender's own account (two records of one account) and holds
+no code never reaches the VM: nothing but the two live records can change -/
+theorem execute_self {c : Ctx} {w : World} {tx : Tx} {snd rcv : Copy} {isFD : Bool} {o : ExecOut}
+    (h : execute c w tx snd rcv isFD = o) (hid : snd.id = rcv.id) (hc : rcv.cur.code = false)
+    (hd : rcv.deploy = true → rcv.redeploy = true) :
+    o.w = w ∧ o.leak = false ∧ o.snd = snd ∧ o.rcv = rcv ∧ (o.err = none → o.fee = txBaseFee c tx.payloadLen) := by
+  unfold execute at h
+  simp only [sendBal_same hid] at h
+  split at h
+  · subst h; simp
+  · subst h; simp
+  · split at h
+    · subst h; simp
+    · split at h
+      · subst h; simp
+      · split at h
+        · subst h; simp
+        · -- the VM would be entered only with code or a deploy flag
+          unfold vmCall at h
+          simp only [] at h
+          by_cases hdep : rcv.deploy = true
+          · -- REDEPLOY of an account without code: checkRedeploy refuses
+            rename_i hn _
+            have := hd hdep
+            simp [this, hc] at hn
+          · simp [hdep, hc] at h
+            subst h; simp
+
+theorem finishVm_self_total {c : Ctx} {w : World} {bp : Nat} {tx : Tx} {snd rcv : Copy} {st : Status}
+    (hsc : snd.cur = w.acct snd.id) (hso : snd.old = w.acct snd.id) (hro : rcv.old = w.acct rcv.id)
+    (hid : snd.id = rcv.id) (hc : rcv.cur.code = false) (hd : rcv.deploy = true → rcv.redeploy = true)
+    (hcov : txBaseFee c tx.payloadLen ≤ snd.cur.bal) :
+    (finishVm w bp tx st false (execute c w tx snd rcv false)).w.total +
+      (finishVm w bp tx st false (execute c w tx snd rcv false)).bp = w.total + bp := by
+  generalize ho : execute c w tx snd rcv false = o
+  obtain ⟨e1, e2, e3, e4, e5⟩ := execute_self ho hid hc hd
+  have hsb : snd.cur.bal = w.bal snd.id := by rw [hsc]; rfl
+  unfold finishVm
+  simp only [Bool.false_eq_true, if_false]
+  split
+  · rfl
+  · rw [e1]
+    refine runtimeBranch_total ?_ ?_
+    · rw [(subBalance_facts _ _).2.1, (subBalance_facts _ _).1, e3]; exact hso
+    · rw [e4]; exact hro
+  · rename_i herr
+    have hf := e5 herr
+    have sf := subBalance_facts o.snd o.fee
+    rw [e3] at sf
+    have hne : ¬ ((o.snd.subBalance o.fee).id ≠ o.rcv.id) := by rw [e3, e4, sf.1]; simp [hid]
+    rw [(successBranch_w _ _ _ _ _ _ _).1, (successBranch_w _ _ _ _ _ _ _).2.1, if_neg hne, e1, e3, sf.1]
+    have h1 := total_put w snd.id ((snd.subBalance o.fee).cur.setNonce tx.nonce)
+    have hle : o.fee ≤ snd.cur.bal := by rw [hf]; exact hcov
+    have := sf.2.2.2.2 hle
+    rw [setNonce_bal, this] at h1
+    omega
+
+
+/-! ### what the validation steps guarantee -/
+
+theorem validateSender_cov {c : Ctx} {tx : Tx} {st : Acct} (h : validateSender c tx st = none)
+    (ht : tx.type = .normal ∨ tx.type = .redeploy ∨ tx.type = .transfer ∨ tx.type = .call ∨ tx.type = .deploy) :
+    tx.amount ≤ st.bal ∧ txBaseFee c tx.payloadLen ≤ st.bal - tx.amount := by
+  unfold validateSender at h
+  split at h
+  · cases h
+  · simp only [] at h
+    split at h
+    · cases h
+    · rename_i hr
+      rcases ht with ht | ht | ht | ht | ht <;> rw [ht] at hr <;> simp only [] at hr <;>
+      · split at hr
+        · cases hr
+        · rename_i hlt
+          exact ⟨Nat.le_of_not_lt hlt, base_le_maxFee hr⟩
+
+theorem mkReceiver_spec {w : World} {tx : Tx} {rcv : Copy} {st : Status} (h : mkReceiver w tx = .ok (rcv, st)) :
+    rcv.cur = w.acct rcv.id ∧ rcv.old = w.acct rcv.id ∧
+    (∀ r, tx.recipient = some r → rcv.id = r ∧ (rcv.deploy = true → rcv.redeploy = true)) ∧
+    (tx.recipient = none → rcv.id = tx.newAddr) := by
+  unfold mkReceiver at h
+  split at h
+  · rename_i r hr
+    simp only [] at h
+    split at h
+    · cases h; simp [hr]
+    · cases h; simp [hr]
+  · rename_i hr
+    simp only [] at h
+    split at h
+    · cases h
+    · cases h; simp [hr]
+
+/-- A fee-delegation transaction is accepted by the real `CheckFeeDelegation` only if its recipient is a
+contract (it looks up the ABI and the code); the stub accepts everything. -/
+def FdTarget (w : World) (tx : Tx) : Prop :=
+  tx.type = .feeDelegation → ∀ r, tx.recipient = some r → (w.acct r).code = true
+
+/-- **Σ balances + BpReward is invariant under `executeTx`**, for every transaction type and outcome,
+outside the three defect shapes (`nameGuard`, `leak`). -/
+theorem executeTx_total' {c : Ctx} {w : World} {bp : Nat} {tx : Tx} {res : Result}
+    (hsig : Signable w tx) (hfd : FdTarget w tx) (hg : nameGuard w tx)
+    (h : executeTx c w bp tx = res) (hl : res.leak = false) :
+    res.w.total + res.bp = w.total + bp := by
+  unfold executeTx at h
+  simp only [] at h
+  split at h
+  · subst h; rfl
+  · split at h
+    · subst h; rfl
+    · rename_i hvs
+      have hsc : (w.getCopy tx.sender).cur = w.acct (w.getCopy tx.sender).id := by simp
+      have hso : (w.getCopy tx.sender).old = w.acct (w.getCopy tx.sender).id := by simp
+      split at h
+      · subst h; exact runtimeBranch_total hso hso
+      · rename_i hmc
+        split at h
+        · subst h; rfl
+        · rename_i rcv st hrcv
+          obtain ⟨m1, m2, m3, m4⟩ := mkReceiver_spec hrcv
+          split at h
+          · -- governance
+            rename_i hty
+            split at h
+            · subst h; rfl
+            · rename_i herr
+              subst h
+              split at herr
+              · -- aergo.system
+                rename_i hrc
+                have q := execSystem_spec rfl herr
+                obtain ⟨q1, q2, q3, q4, q5, q6, q7, q8, q9⟩ := q
+                rw [(successBranch_w _ _ _ _ _ _ _).1, (successBranch_w _ _ _ _ _ _ _).2.1]
+                have hb : ∀ a, (execSystem c w tx (w.getCopy tx.sender) rcv).w.bal a = w.bal a := bal_of_accts q3
+                have ht := total_of_accts q3
+                have hsb : (w.getCopy tx.sender).cur.bal = w.bal tx.sender := by simp; rfl
+                have hrb : rcv.cur.bal = w.bal rcv.id := by rw [m1]; rfl
+                rw [q1, q2]
+                simp only [getCopy_id] at q9 ⊢
+                by_cases hne : tx.sender = rcv.id
+                · rw [if_neg (by simp [hne])]
+                  have h1 := total_put (execSystem c w tx (w.getCopy tx.sender) rcv).w tx.sender
+                    ((execSystem c w tx (w.getCopy tx.sender) rcv).snd.cur.setNonce tx.nonce)
+                  have := q9 hne
+                  have := hb tx.sender
+                  rw [setNonce_bal] at h1
+                  omega
+                · rw [if_pos hne]
+                  have h2 := put2_total (execSystem c w tx (w.getCopy tx.sender) rcv).w
+                    ((execSystem c w tx (w.getCopy tx.sender) rcv).snd.cur.setNonce tx.nonce)
+                    (execSystem c w tx (w.getCopy tx.sender) rcv).rcv.cur hne
+                  have := hb tx.sender; have := hb rcv.id
+                  rw [setNonce_bal] at h2
+                  omega
+              · -- aergo.name
+                rename_i hrc
+                have hrid : rcv.id = aName := (m3 _ hrc).1
+                have hne : (w.getCopy tx.sender).id ≠ rcv.id := by
+                  rw [getCopy_id, hrid]; exact hsig.notName
+                have := execName_total (bp := bp) (st := st) rfl herr hsc m1 hne (getCopy_id _ _) hrid hg
+                rw [(successBranch_w _ _ _ _ _ _ _).2.1]
+                omega
+              · simp at herr
+          · -- fee delegation
+            rename_i hty
+            split at h
+            · subst h; rfl
+            · rename_i hmf
+              split at h
+              · subst h; rfl
+              · subst h
+                -- the recipient is a contract, the sender is not: two different accounts
+                have hne : (w.getCopy tx.sender).id ≠ rcv.id := by
+                  rw [getCopy_id]
+                  intro e
+                  cases hr : tx.recipient with
+                  | none =>
+                    have := m4 hr
+                    exact hsig.fresh hr (by rw [← this, ← e])
+                  | some r =>
+                    have h1 := (m3 r hr).1
+                    have h2 := hfd hty r hr
+                    rw [← h1, ← e, hsig.noCode] at h2
+                    cases h2
+                exact finishVm_total hsc hso m1 m2 hne (by simp) (fun _ => base_le_maxFee hmf) hl
+          · -- NORMAL / TRANSFER / CALL / DEPLOY / REDEPLOY
+            rename_i hng hnf
+            subst h
+            have hty : tx.type = .normal ∨ tx.type = .redeploy ∨ tx.type = .transfer ∨ tx.type = .call ∨ tx.type = .deploy := by
+              cases ht : tx.type <;> simp_all
+            have hcov := validateSender_cov hvs hty
+            simp only [getCopy_cur] at hcov
+            by_cases hne : (w.getCopy tx.sender).id = rcv.id
+            · -- the sender pays itself
+              refine finishVm_self_total hsc hso m2 hne ?_ ?_ ?_
+              · rw [m1, ← hne, getCopy_id]; exact hsig.noCode
+              · cases hr : tx.recipient with
+                | none =>
+                  have := m4 hr
+                  rw [getCopy_id] at hne
+                  exact absurd (by rw [← this, ← hne]) (hsig.fresh hr)
+                | some r => exact (m3 r hr).2
+              · simp only [getCopy_cur]; omega
+            · exact finishVm_total hsc hso m1 m2 hne (fun _ h => by simp only [getCopy_cur]; exact hcov.2) (by simp) hl
+
+/-- **Σ balances + BpReward is invariant under `executeTx`**, for every transaction type and outcome,
+outside the three defect shapes (`nameGuard`, `leak`). -/
+theorem executeTx_total {c : Ctx} {w : World} {bp : Nat} {tx : Tx}
+    (hsig : Signable w tx) (hfd : FdTarget w tx) (hg : nameGuard w tx)
+    (hl : (executeTx c w bp tx).leak = false) :
+    (executeTx c w bp tx).w.total + (executeTx c w bp tx).bp = w.total + bp :=
+  executeTx_total' hsig hfd hg rfl hl
+
 end Aergo.Ledger
